@@ -53,7 +53,13 @@ func c28Eval(input string) (res c28Case) {
 	e, err = ParseExpr(input)
 	if err != nil {
 		if errors.Is(err, errUnexpected) {
+			// parser.recover() caught a runtime error (index out of range, nil dereference …)
+			// raised inside the parser and printed its stack to stderr: the parser did panic,
+			// the caller only sees "unexpected error"
 			res.internal = true
+			res.findings = append(res.findings, c28Finding{Key: "C28/panic/recovered-runtime-error",
+				What:    "a runtime panic inside the parser (recovered by parser.recover, reported as `unexpected error`)",
+				Witness: map[string]any{"input": input, "input_quoted": strconv.Quote(input)}})
 		}
 		return res
 	}
@@ -110,8 +116,8 @@ func TestVerifC28(t *testing.T) {
 	r.SetRule("part 1 (in process): grammar-directed random PromQL text over parse.y incl. the StatsHouse extensions (@name matchers, name:$var bindings, offset [a, b], default, keywords as metric names / grouping labels, numeric label names), every quote style / number format / duration form, ~5% deliberately invalid productions. part 2 (re-exec'd child, each input written to a file before it is parsed): the same texts mutated at byte and token level, token soup, random bytes and deep/long pathological inputs. Judged = input accepted by ParseExpr (round trip: print, reparse, compare field by field modulo positions, reprint is a fixed point) or rejected (no panic). Non-trivial = accepted and the tree has >= 2 nodes or a modifier/extension; distinct = distinct input text.")
 	r.Assume("nil and empty Grouping / MatchingLabels / Include / OriginalOffsetEx compare equal; label matchers compare as a set; a subquery step is only a flag in this grammar (maybe_duration) and compares as such")
 
-	nGrammar := r.N(160000, 3000000)
-	nStrings := r.N(120000, 2400000)
+	nGrammar := r.N(160000, 2000000)
+	nStrings := r.N(120000, 1600000)
 	workers := 8
 
 	// ---- part 1: grammar-directed, in process
@@ -293,13 +299,6 @@ func TestVerifC28Child(t *testing.T) {
 				}
 				if r.internal {
 					count("rejected.parser_recovered_own_runtime_panic", 1)
-					mu.Lock()
-					if res.ViolN["~internal"] < 3 {
-						res.ViolN["~internal"]++
-						b, _ := json.Marshal(c28Finding{Key: "~internal", What: "parser recovered its own runtime panic", Witness: map[string]any{"input": in, "input_quoted": strconv.Quote(in)}})
-						violF.Write(append(b, '\n'))
-					}
-					mu.Unlock()
 				}
 				for _, f := range r.findings {
 					mu.Lock()
@@ -400,6 +399,9 @@ func c28Supervise(t *testing.T, r *verifkit.Run, total, workers int) {
 		if runErr == nil && rdErr == nil && json.Unmarshal(b, &res) == nil {
 			for k, v := range res.Counters {
 				r.Count("child."+k, v)
+				if k == "accepted.print_skipped_long_input" {
+					r.NotJudged("round-trip-of-accepted-inputs-longer-than-20kB (parsed only)", v)
+				}
 			}
 			for k, v := range res.ViolN {
 				r.Count("child.findings."+strings.TrimPrefix(k, "C28/"), v)
@@ -451,10 +453,6 @@ func c28Supervise(t *testing.T, r *verifkit.Run, total, workers int) {
 		for sc.Scan() {
 			var fd c28Finding
 			if json.Unmarshal(sc.Bytes(), &fd) != nil {
-				continue
-			}
-			if fd.Key == "~internal" {
-				r.Sample(map[string]any{"parser_recovered_own_runtime_panic": fd.Witness})
 				continue
 			}
 			r.Violation(fd.Key, fd.What, fd.Witness)
